@@ -18,8 +18,17 @@
 (*   [g |-> "ptr", nil, v]                      *T                         *)
 (*   [g |-> "struct", f: <<field>>]             struct, field =            *)
 (*        [name, tagged, tname, omitempty, str, dash, anon, v]             *)
+(* values of types with marshalling methods (the fork adds the last two):  *)
+(*   [g |-> "marsh", text, fail]    json.Marshaler: MarshalJSON returns    *)
+(*        text (or an error); the text is checked and COMPACTED into the   *)
+(*        output, HTML-escaped as the switch says                          *)
+(*   [g |-> "textm", text]          encoding.TextMarshaler: a JSON string  *)
+(*   [g |-> "redir", v]             RedirectMarshaler: the Go value v is   *)
+(*        encoded in its place                                             *)
+(*   [g |-> "trust", b]             TrustMarshaler: writes b into the      *)
+(*        output buffer itself: not checked, not compacted, not escaped    *)
 (***************************************************************************)
-EXTENDS JsonEnc
+EXTENDS JsonEnc, Scanner
 
 \* bytes of a Go string -> code points; every byte that is not part of a valid UTF-8 sequence becomes the marker -1
 \* (read back as U+FFFD)
@@ -67,6 +76,9 @@ IsEmptyGo(v) ==
     [] v.g = "bytes" -> v.b = <<>>
     [] v.g = "map"   -> v.m = <<>>
     [] v.g = "imap"  -> v.m = <<>>
+    [] v.g = "tslice" -> v.e = <<>>
+    [] v.g = "tmap"  -> v.m = <<>>
+    [] v.g = "number" -> v.lit = <<>>          \* a string type: empty when the string is
     [] v.g = "ptr"   -> v.nil
     [] OTHER         -> FALSE               \* a struct is never empty
 
@@ -107,9 +119,46 @@ GoToJson(v, esc) ==
                         ELSE SortKeys(Obj([i \in 1..Len(v.m) |-> Mem(GoUtf8(v.m[i].k), GoToJson(v.m[i].v, esc))]))
     [] v.g = "imap"  -> SortKeys(Obj([i \in 1..Len(v.m) |-> Mem(IntLit(v.m[i].k), GoToJson(v.m[i].v, esc))]))
     [] v.g = "ptr"   -> IF v.nil THEN Null ELSE GoToJson(v.v, esc)
+    [] v.g = "tslice" -> IF v.nil THEN Null ELSE Arr([i \in 1..Len(v.e) |-> GoToJson(v.e[i], esc)])
+    [] v.g = "tmap"  -> IF v.nil THEN Null
+                        ELSE SortKeys(Obj([i \in 1..Len(v.m) |-> Mem(GoUtf8(v.m[i].k), GoToJson(v.m[i].v, esc))]))
+    [] v.g = "number" -> Num(v.lit)
+    [] v.g = "marsh" -> [t |-> "raw", b |-> Compact(v.text, esc).out]
+    [] v.g = "textm" -> Str(GoUtf8(v.text))
+    [] v.g = "redir" -> GoToJson(v.v, esc)
+    [] v.g = "trust" -> [t |-> "raw", b |-> v.b]
     [] OTHER         -> Obj(FieldMembers(v.f, 1, esc))
 
 GoMarshal(v, esc) == Enc(GoToJson(v, esc), esc)
+
+\* A RedirectMarshaler whose replacement value cannot be encoded: redirMarshalerEncoder drops the error of the nested
+\* encode, so Marshal succeeds with whatever was written up to there.  No listed property speaks about this case (the
+\* library's own RedirectMarshalers only return values that encode): the result is left unspecified here.
+RECURSIVE GoFails(_)
+GoFailsIn(v) == GoFails(v)
+RECURSIVE GoUnspecified(_)
+GoUnspecified(v) ==
+  CASE v.g = "redir"  -> GoFailsIn(v.v) \/ GoUnspecified(v.v)
+    [] v.g \in {"slice", "tslice"} -> \E i \in 1..Len(v.e) : GoUnspecified(v.e[i])
+    [] v.g \in {"map", "imap", "tmap"} -> \E i \in 1..Len(v.m) : GoUnspecified(v.m[i].v)
+    [] v.g = "ptr"    -> ~v.nil /\ GoUnspecified(v.v)
+    [] v.g = "struct" -> \E i \in 1..Len(v.f) : GoUnspecified(v.f[i].v)
+    [] OTHER          -> FALSE
+
+\* Marshal returns an error (and no bytes): a MarshalJSON that fails or returns ill-formed text, anywhere it is reached
+GoFails(v) ==
+  CASE v.g = "marsh"  -> v.fail \/ ~Valid(v.text)
+    [] v.g = "redir"  -> FALSE                \* see GoUnspecified
+    [] v.g \in {"slice", "tslice"} -> \E i \in 1..Len(v.e) : GoFails(v.e[i])
+    [] v.g \in {"map", "imap", "tmap"} -> \E i \in 1..Len(v.m) : GoFails(v.m[i].v)
+    [] v.g = "ptr"    -> ~v.nil /\ GoFails(v.v)
+    [] v.g = "struct" -> \E i \in 1..Len(v.f) :
+                           LET x == v.f[i] IN
+                           /\ ~x.dash
+                           /\ Exported(x.name) \/ (x.anon /\ x.v.g = "struct" /\ ~x.tagged)
+                           /\ ~(x.omitempty /\ IsEmptyGo(x.v))
+                           /\ GoFails(x.v)
+    [] OTHER          -> FALSE
 
 \* the value a reader sees: the marker -1 reads back as U+FFFD
 RECURSIVE AsRead(_)
